@@ -38,6 +38,8 @@ from .common import (
 # this much
 ISC_ERR = F(1, 10 ** 24)
 
+eff_fv = eff_fv  # re-exported for lemmas
+
 SCALE = {"isc_base": 6, "esc": 10, "modified_isc_base": 12, "modified_esc": 10, "score": 1, "weight": 2}
 
 
